@@ -51,6 +51,11 @@ UAColl2 == {Null, Bool(FALSE), Arr(<<Null>>), Arr(<<Bool(FALSE)>>), Arr(<<Bool(T
 \* every earlier item with the same hash must be compared, not only the latest.  (few representations:
 \* the point is the position of the twin, not how it is carried)
 UACollPlain == {Arr(<<x, y, x>>) : x \in UAColl, y \in UAColl} \cup {Arr(<<x, y, w, x>>) : x \in UAColl2, y \in UAColl2, w \in UAColl2}
+\* byte strings: []uint8 / [N]uint8 next to the same list carried as []any / []float64 (an implementation that
+\* treats []byte specially must still agree with the element-wise reading)
+UABytesReps == UNION {RepsOf(v, {"uint8", "float64"}, {"typed", "any", "array"}, {"any"}) :
+                        v \in {Arr(<<Arr(<<Num(R_1)>>), Arr(<<Num(R_1)>>)>>), Arr(<<Arr(<<Num(R_1), Num(R_0)>>), Arr(<<Num(R_1), Num(R_0)>>)>>),
+                               Arr(<<Arr(<<Num(R_1), Num(R_0)>>), Arr(<<Num(R_0), Num(R_1)>>)>>), Arr(<<EmptyArr, Arr(<<Num(R_0)>>)>>)}}
 UACollReps == UNION {RepsOf(v, {"float64"}, {"any"}, {"any"}) : v \in UACollPlain}
 \* (K >= 2: all pairs over the larger element set, all triples over a core of one value per JSON type)
 UACore == {Num(R_0), Num(R_1), Str("1"), Null, Arr(<<Num(R_m1)>>)}
@@ -117,7 +122,7 @@ RVSeq == IF Family = "RV" THEN SetToSeq(RVReps(0)) ELSE <<>>
 
 Cases ==
   CASE Family = "EQ" -> EQPool(0)
-    [] Family = "UA" -> UNION {UAReps(v) : v \in UAPlain(0)} \cup UACollReps
+    [] Family = "UA" -> UNION {UAReps(v) : v \in UAPlain(0)} \cup UACollReps \cup UABytesReps
     [] Family = "RV" -> {RVSchemas[i] : i \in DOMAIN RVSchemas}
     [] Family = "HU" -> {Arr(e) : e \in UNION {[1..n -> {Num(R_1), Num(R_2), Str("a")}] : n \in 0..4}}
 
